@@ -43,6 +43,7 @@ class Unit:
         self.labels = {}            # clause label -> (section, text) for reporting
         self.assoc_types = True     # emit the source impl's `type X = ..;` members
         self.add_generics = ""      # generic parameters added to the emitted fn (impl-level generics moved to the method)
+        self.const_branches = False # R25: drop branches whose `size_of` condition is constant after instantiation
         self.idents = {}            # R23: local identifier renames (names that are keywords inside verus!, e.g. a parameter called `int`)
         self.assoc = {}             # R21: `Self::Name` -> concrete type (associated types of the source trait impl, for inherent emission)
         self.split = None           # R19: (inherent impl header, fn generics, requires expr) for trait-impl bodies Verus cannot take in place
@@ -142,6 +143,8 @@ def parse_units(path):
                         if kv:
                             a, b = kv.split("=", 1)
                             cur.subst[a.strip()] = b.strip()
+                elif k == "const_branches":
+                    cur.const_branches = v.strip().lower() in ("1", "true", "yes")
                 elif k == "ident":
                     for kv in v.split(","):
                         if kv.strip():
